@@ -358,6 +358,29 @@ func refMalformedUnit(r refCfg) harness.Unit {
 					})
 				}
 				try("one trailing byte (handshake length adjusted)", "trailing-byte", func(m []byte) []byte { return gmref.HS(m[0], append(append([]byte{}, m[4:]...), 0)) })
+				// inner blocks whose own length field is consistent with the message but whose entries
+				// do not fill them: 1-3 stray bytes at the end of a list
+				for _, sv := range strayVariants(built) {
+					sv := sv
+					if sv.conformant {
+						mut := func(fl int, items []gmref.Item) []gmref.Item {
+							if fl != flight {
+								return items
+							}
+							out := append([]gmref.Item{}, items...)
+							orig := out[pos]
+							out[pos].Build = func(p *gmref.Peer) []byte { return sv.f(orig.Build(p)) }
+							return out
+						}
+						o := r.runMut(mut)
+						tag := fmt.Sprintf("%s; %s: %s", r, name, sv.what)
+						c.Add("executions", 1)
+						c.DistinctS("states", tag)
+						judgeRef(c, r, tag, "wellformed-variant:"+name+":"+sv.key, o, sv.verdict)
+						continue
+					}
+					try(sv.what, sv.key, sv.f)
+				}
 			}
 		}
 	}}
@@ -375,4 +398,73 @@ func (r refCfg) runMut(mut func(int, []gmref.Item) []gmref.Item) *tlsk.RefOutcom
 		q.RequestCert = r.auth
 	}
 	return tlsk.RunLibVsRef(r.libConfig(), r.libIsClient, tlsk.LibApp(r.libIsClient), id, 23, setup, script, nil)
+}
+
+type strayVariant struct {
+	what, key  string
+	conformant bool
+	verdict    string
+	f          func(m []byte) []byte
+}
+
+// strayVariants: list-shaped parts of a message (extensions, certificate list, CA names) extended by
+// bytes that belong to no entry while every enclosing length field is adjusted to stay consistent.
+func strayVariants(m []byte) []strayVariant {
+	var out []strayVariant
+	u16 := func(n int) []byte { return []byte{byte(n >> 8), byte(n)} }
+	u24 := func(n int) []byte { return []byte{byte(n >> 16), byte(n >> 8), byte(n)} }
+	switch m[0] {
+	case gmref.HSClientHello, gmref.HSServerHello:
+		// both hellos of the reference peer end after the compression field: append an extensions block
+		ext := []byte{0x12, 0x34, 0, 2, 0xaa, 0xbb} // one unknown extension
+		verdict := refdev.MustComplete
+		if m[0] == gmref.HSServerHello {
+			verdict = refdev.MayComplete // an extension the client did not offer: refusing it is legitimate
+		}
+		out = append(out, strayVariant{what: "one well-formed unknown extension appended", key: "unknown-extension", conformant: true, verdict: verdict, f: func(m []byte) []byte {
+			b := append(append([]byte{}, m[4:]...), u16(len(ext))...)
+			return gmref.HS(m[0], append(b, ext...))
+		}})
+		for k := 1; k <= 3; k++ {
+			k := k
+			out = append(out, strayVariant{what: fmt.Sprintf("extensions block ending in %d stray byte(s) (extensions length and handshake length consistent)", k), key: "extensions-stray-bytes", f: func(m []byte) []byte {
+				blk := append(append([]byte{}, ext...), make([]byte, k)...)
+				b := append(append([]byte{}, m[4:]...), u16(len(blk))...)
+				return gmref.HS(m[0], append(b, blk...))
+			}})
+		}
+		out = append(out, strayVariant{what: "extension whose length overstates the block by one", key: "extension-length-overstated", f: func(m []byte) []byte {
+			blk := []byte{0x12, 0x34, 0, 3, 0xaa, 0xbb}
+			b := append(append([]byte{}, m[4:]...), u16(len(blk))...)
+			return gmref.HS(m[0], append(b, blk...))
+		}}, strayVariant{what: "empty extensions block followed by nothing (length 0)", key: "extensions-empty", conformant: true, verdict: refdev.MayComplete, f: func(m []byte) []byte {
+			return gmref.HS(m[0], append(append([]byte{}, m[4:]...), 0, 0))
+		}})
+	case gmref.HSCertificate:
+		for k := 1; k <= 2; k++ {
+			k := k
+			out = append(out, strayVariant{what: fmt.Sprintf("certificate list ending in %d stray byte(s) (list length consistent)", k), key: "certificate-list-stray-bytes", f: func(m []byte) []byte {
+				list := append(append([]byte{}, m[7:]...), make([]byte, k)...)
+				return gmref.HS(m[0], append(u24(len(list)), list...))
+			}})
+		}
+		out = append(out, strayVariant{what: "an empty certificate entry appended to the list", key: "certificate-empty-entry", f: func(m []byte) []byte {
+			list := append(append([]byte{}, m[7:]...), 0, 0, 0)
+			return gmref.HS(m[0], append(u24(len(list)), list...))
+		}})
+	case gmref.HSCertRequest:
+		body := m[4:]
+		if len(body) >= 1 {
+			nt := int(body[0])
+			if len(body) >= 1+nt+2 {
+				out = append(out, strayVariant{what: "CA list ending in 1 stray byte (list length consistent)", key: "ca-list-stray-byte", f: func(m []byte) []byte {
+					body := m[4:]
+					head := append([]byte{}, body[:1+nt]...)
+					list := append(append([]byte{}, body[1+nt+2:]...), 0)
+					return gmref.HS(m[0], append(append(head, u16(len(list))...), list...))
+				}})
+			}
+		}
+	}
+	return out
 }
